@@ -77,3 +77,6 @@ PLAN["C10"] = dict(quick=["conc"], thorough=["conc"])
 for _p in ("C02", "C06", "C12", "C14", "C15"):
     PLAN[_p]["quick"] = PLAN[_p]["quick"] + ["conc"]
     PLAN[_p]["thorough"] = PLAN[_p]["thorough"] + ["conc"]
+
+SUITES["twin"] = dict(mc="MC_Seq")
+PLAN["C13"] = dict(quick=["cold13", "twin"], thorough=["cold13", "twin"])
